@@ -85,6 +85,7 @@ type Engine struct {
 	preemptBound int
 	syncMaps     map[*value]map[any]value
 	envFS        map[string]bool // environment-stub file system: paths created on this path
+	envFiles     map[string]string // environment-stub file system: contents of the files registered by the harness
 	budgetAt     int64
 	budgetMsg    string
 	TimeoutMs   int
@@ -264,6 +265,7 @@ func (e *Engine) resetPath() {
 	e.preemptBound = -1
 	e.syncMaps = map[*value]map[any]value{}
 	e.envFS = map[string]bool{}
+	e.envFiles = map[string]string{}
 	if e.depth > 0 {
 		e.send(fmt.Sprintf("(pop %d)", e.depth))
 	}
